@@ -4,7 +4,7 @@ EXTENDS LdrOps, TLCExt, Json, IOUtils
 Tr == ndJsonDeserialize(IOEnv.TRACE_FILE)
 VARIABLES l, bad
 Init == l = 1 /\ bad = <<>>
-Judge(e) == Why(e.op, e.L, e.T, e.out)
+Judge(e) == LET w == Why(e.op, e.L, e.T, e.out) IN IF w # "ok" THEN w ELSE SiblingWhy(e.S, e.out)
 Next == /\ l <= Len(Tr)
         /\ bad' = IF Judge(Tr[l]) = "ok" THEN bad
                   ELSE Append(bad, [i |-> l, why |-> Judge(Tr[l]), ctx |-> Ctx(Tr[l].op, Tr[l].L), id |-> Tr[l].id])
